@@ -121,12 +121,29 @@ func c03Capacity(name string, leafSize uint64) (uint64, bool) {
 		return 0, false
 	case "lru0":
 		return 0, true
+	case "lrutight":
+		// holds a leaf bitmap and nothing bigger: results of different sizes are "too big for the whole cache" or not
+		return leafSize + c03Overhead() + 4, true
 	case "lru1":
 		return leafSize + 72 + 40, true
 	case "lru3":
 		return 3*(leafSize+72) + 60, true
 	}
 	return 1 << 30, true
+}
+
+// c03Overhead measures what the LRU cache charges per entry on top of the bitmap: the smallest capacity at which an
+// empty bitmap is kept.
+func c03Overhead() uint64 {
+	empty := roaring.New()
+	for o := uint64(0); o < 4096; o++ {
+		c := updog.NewLRUCache(empty.GetSizeInBytes() + o)
+		c.Put(1, empty)
+		if _, ok := c.Get(1); ok {
+			return o
+		}
+	}
+	return 72
 }
 
 func newC03World(ctx *rt.Ctx, cfg c03Cfg) *c03World {
@@ -609,7 +626,7 @@ func c03EditedCfg(ctx *rt.Ctx, cfgs []c03Cfg) *rt.Violation {
 func c03Run(ctx *rt.Ctx) []*rt.Violation {
 	var jobs []rt.Job
 	for _, pre := range []bool{false, true} {
-		for _, c := range []string{"ample", "lru3", "lru1", "lru0", "none"} {
+		for _, c := range []string{"ample", "lru3", "lru1", "lrutight", "lru0", "none"} {
 			{
 				b, _ := json.Marshal(c03Args{Cfg: c03Cfg{Preload: pre, Cache: c}, Mode: "bfs", AndNot: true})
 				jobs = append(jobs, rt.Job{Name: "bfs-andnot-" + c, Args: b})
